@@ -160,7 +160,10 @@ def build_tree(root, case):
                 item = ["[[annotations]]", "path = %s" % toml_str(glob_escape(p))]
                 if how == "header+global":
                     item.append('precedence = "aggregate"')
-                if gc:
+                if f.get("emptycop"):
+                    # an empty string is not a copyright notice (clause (a)): the file still lacks one
+                    item.append('SPDX-FileCopyrightText = %s' % f["emptycop"])
+                elif gc:
                     item.append("SPDX-FileCopyrightText = [%s]" % ", ".join(
                         toml_str("%d Global Holder %d" % (1990 + i, i)) for i in range(gc)))
                 if ge:
@@ -603,7 +606,7 @@ def compliant_case(rng, nfiles=None):
 
 
 DEFECTS = ["missing", "unused", "bad-used", "bad-provided", "deprecated", "noext", "nocop", "nolic", "readerr", "noboth",
-           "wrongcase", "licref-missing", "licref-noext", "plus-only-provided"]
+           "wrongcase", "licref-missing", "licref-noext", "plus-only-provided", "emptycop"]
 
 
 def inject(rng, case, kind):
@@ -660,6 +663,11 @@ def inject(rng, case, kind):
         add_expr(f, K("EUPL-1.2"))
         if not any(h.startswith("EUPL-1.2") for h in have):
             case["lic"].append("EUPL-1.2+.txt")
+    elif kind == "emptycop":
+        # REUSE.toml says `SPDX-FileCopyrightText = ""` (or `[""]`) for the file and nothing else supplies a notice
+        if case["glob"] in ("none", "toml") and f["exprs"]:
+            case["glob"] = "toml"
+            f["how"], f["cop"], f["emptycop"] = "global", 0, rng.choice(['""', '[""]'])
     elif kind == "nocop":
         f["cop"] = 0
         if f["how"] == "header+global":
